@@ -723,6 +723,9 @@ func condHolds(seed int64, cond string, src string, idx int) bool {
 	if cond == "" {
 		return true
 	}
+	if cond == condNever {
+		return false
+	}
 	for k := 0; k < 3; k++ {
 		if cond == condTemplate(k) {
 			return condBit(seed, src, idx, k) == "1"
